@@ -225,10 +225,10 @@ def _exchange(sym, shapes, whos, slots, policy):
     return True
 
 
-def h_pipe(sym, shapes, maxcut):
+def h_pipe(sym, shapes, maxcut, maxgap=3):
     """raw pipelined client: all N requests back to back, split at a symbolic cut"""
     cut = sym.realize(sym.int("cut", 0, maxcut))
-    gap = sym.realize(sym.int("gap", 0, 3))
+    gap = sym.realize(sym.int("gap", 0, maxgap))
     return run_concrete(sym, _pipe, shapes, cut, gap)
 
 
@@ -267,29 +267,45 @@ def tuples(shapes, n):
     return [(s,) + t for s in shapes for t in tuples(shapes, n - 1)]
 
 
+NOLENGTH = ("stream", "stream-e", "empty")
+
+
+def clean_on_unchanged_tree(t):
+    """shape tuples on which no recorded defect of the unchanged tree is visible (used only to decide where
+    vacuity-guard cover labels can be demanded: covers are counted on confirmed paths)"""
+    return all(s in ("empty0", "empty", "nocontent") for s in t[:-1]) and all(s not in NOLENGTH for s in t[1:])
+
+
 def obligations(tier):
     quick = tier == "quick"
     out = []
     budget = 240 if quick else 900
+    four = [("fixed", "stream"), ("stream", "fixed"), ("stream", "stream"), ("empty", "fixed")]
     if quick:
-        plans = [("sched", SHAPES_Q, 2, dict(steps=6, slots=0, maxcall=0, lmax=0, stride=1)),
-                 ("xfer", SHAPES_Q, 2, dict(steps=0, slots=1, maxcall=40, lmax=3, stride=1))]
-        pipes = [(SHAPES_Q, 2, 40)]
+        plans = [("sched", tuples(SHAPES_Q, 2), dict(steps=6, slots=0, maxcall=0, lmax=0, stride=1)),
+                 ("xfer", tuples(SHAPES_Q, 2), dict(steps=0, slots=1, maxcall=40, lmax=3, stride=1))]
+        pipes = [(tuples(SHAPES_Q, 2), 40, 3)]
     else:
-        plans = [("sched", SHAPES_T, 2, dict(steps=8, slots=0, maxcall=0, lmax=0, stride=1)),
-                 ("sched3", SHAPES_Q, 3, dict(steps=8, slots=0, maxcall=0, lmax=0, stride=1)),
-                 ("xfer", SHAPES_T, 2, dict(steps=0, slots=1, maxcall=60, lmax=3, stride=1)),
-                 ("xfer17", SHAPES_Q, 2, dict(steps=0, slots=2, maxcall=60, lmax=3, stride=17)),
-                 ("both", SHAPES_Q, 2, dict(steps=4, slots=1, maxcall=60, lmax=2, stride=1))]
-        pipes = [(SHAPES_T, 2, 400), (SHAPES_Q, 3, 600)]
-    for fam, shapes, n, kw in plans:
-        for t in tuples(shapes, n):
-            covers = ["n-responses"] if False else []
+        plans = [("sched", tuples(SHAPES_T, 2), dict(steps=8, slots=0, maxcall=0, lmax=0, stride=1)),
+                 ("sched3", tuples(SHAPES_Q, 3), dict(steps=7, slots=0, maxcall=0, lmax=0, stride=1)),
+                 ("xfer", tuples(SHAPES_T, 2), dict(steps=0, slots=1, maxcall=60, lmax=3, stride=1)),
+                 ("xfer3", tuples(SHAPES_Q, 3), dict(steps=0, slots=1, maxcall=80, lmax=2, stride=17)),
+                 ("xfer2slots", four, dict(steps=0, slots=2, maxcall=60, lmax=2, stride=17)),
+                 ("both", tuples(SHAPES_Q, 2), dict(steps=3, slots=1, maxcall=60, lmax=2, stride=1))]
+        pipes = [(tuples(SHAPES_T, 2), 340, 1), (tuples(SHAPES_Q, 3), 200, 1)]
+    for fam, tups, kw in plans:
+        for t in tups:
+            covers = []
+            if clean_on_unchanged_tree(t):
+                covers = ["n-responses"] + (["limited-transfer"] if kw["slots"] else [])
             out.append(Ob("%s/%s" % (fam, "+".join(t)), h, dict(shapes=list(t), **kw), budget=budget, covers=covers,
-                          bounds=dict(N=n, shapes=list(t), schedule_steps=kw["steps"], limited_calls=kw["slots"],
-                                      call_index=[0, kw["maxcall"]], limit_bytes=[0, kw["lmax"] * kw["stride"]])))
-    for shapes, n, maxcut in pipes:
-        for t in tuples(shapes, n):
-            out.append(Ob("pipe/%s" % "+".join(t), h_pipe, dict(shapes=list(t), maxcut=maxcut), budget=budget,
-                          covers=[], bounds=dict(N=n, shapes=list(t), cut=[0, maxcut], gap_rounds=[0, 3])))
+                          bounds=dict(N=len(t), shapes=list(t), schedule_steps=kw["steps"], limited_calls=kw["slots"],
+                                      call_index=[0, kw["maxcall"]], limit_bytes=[0, kw["lmax"] * kw["stride"]],
+                                      limit_stride=kw["stride"])))
+    for tups, maxcut, maxgap in pipes:
+        for t in tups:
+            covers = ["n-responses", "split-pipeline"] if all(s not in NOLENGTH for s in t[1:]) else []
+            out.append(Ob("pipe%s/%s" % ("" if len(t) == 2 else str(len(t)), "+".join(t)), h_pipe,
+                          dict(shapes=list(t), maxcut=maxcut, maxgap=maxgap), budget=budget,
+                          covers=covers, bounds=dict(N=len(t), shapes=list(t), cut=[0, maxcut], gap_rounds=[0, maxgap])))
     return out
